@@ -48,7 +48,7 @@ def cases(tier, rng):
                     if closing is not None and rng.random() < 0.25:
                         # the very first item of the key is itself a closing item
                         yield {'kind': 'mux', 'term': [['time_split', cfg, [['to_list']]]], 'items': timeline((3,) + gaps)}
-    n = {'quick': 300, 'thorough': 8000, 'search': 500}[tier]
+    n = {'quick': 900, 'thorough': 8000, 'search': 500}[tier]
     for _ in range(n):
         cfg = {'time': ['id'], 'active': rng.choice([None, 2, 3, 5, 0]), 'inactive': rng.choice([None, 1, 2, 3]),
                'closing': rng.choice([None, ['mod_eq', 4, 3], ['is_even'], ['mod_eq', 3, 0]]), 'include': rng.random() < 0.5}
